@@ -379,3 +379,153 @@ func (s *SchemaSpec) BuildSchema(typeOrder []int) (*jsonapi.Schema, error) {
 
 	return sc, nil
 }
+
+// BuildSchemaHist reaches the schema BuildSchema builds through a longer history
+// of edits, as a long-lived server does: scaffold types are added between the
+// real ones and removed again (so that types move inside Schema.Types), the last
+// attribute of a soft type is added after the type through Schema.AddAttr, and
+// temporary fields are added to soft types and removed again. The final content
+// is the same; what the library keeps about its own past must not matter.
+// It returns the number of edits beyond the plain AddType calls.
+func (s *SchemaSpec) BuildSchemaHist(t *core.Tape) (*jsonapi.Schema, int, error) {
+	sc := &jsonapi.Schema{}
+	edits := 0
+
+	var (
+		pending []string
+		later   []func() error
+	)
+
+	nscaf := 0
+	scaffold := func() error {
+		name := fmt.Sprintf("scaffold%d", nscaf)
+		nscaf++
+
+		if s.Type(name) != nil {
+			return nil
+		}
+
+		typ := jsonapi.Type{Name: name}
+		if err := typ.AddAttr(jsonapi.Attr{Name: "title", Type: jsonapi.AttrTypeString}); err != nil {
+			return err
+		}
+
+		if err := typ.AddRel(jsonapi.Rel{FromType: name, FromName: "next", ToOne: true, ToType: name}); err != nil {
+			return err
+		}
+
+		pending = append(pending, name)
+		edits++
+
+		return sc.AddType(typ)
+	}
+
+	unscaffold := func() {
+		k := t.Draw(len(pending))
+		sc.RemoveType(pending[k])
+		pending = append(pending[:k], pending[k+1:]...)
+		edits++
+	}
+
+	for _, ts := range s.Types {
+		ts := ts
+
+		for n := 0; n < 3 && t.Bool(1, 3); n++ { // bounded: an exhausted tape yields zeros
+			if err := scaffold(); err != nil {
+				return nil, edits, err
+			}
+		}
+
+		held := -1
+		if !ts.Struct && len(ts.Attrs) > 0 && t.Bool(1, 2) {
+			held = len(ts.Attrs) - 1
+		}
+
+		var (
+			typ jsonapi.Type
+			err error
+		)
+
+		if held >= 0 {
+			short := *ts
+			short.Attrs = ts.Attrs[:held]
+			short.goType = nil
+			typ, err = short.SoftType()
+		} else {
+			typ, err = ts.Build()
+		}
+
+		if err != nil {
+			return nil, edits, fmt.Errorf("build type %q: %v", ts.Name, err)
+		}
+
+		if err := sc.AddType(typ); err != nil {
+			return nil, edits, err
+		}
+
+		if held >= 0 {
+			a := ts.Attrs[held]
+			edits++
+
+			later = append(later, func() error {
+				return sc.AddAttr(ts.Name, jsonapi.Attr{Name: a.Name, Type: a.Kind, Nullable: a.Nullable})
+			})
+		}
+
+		if !ts.Struct && ts.Attr("tmpattr") == nil && ts.Rel("tmpattr") == nil && ts.Attr("tmprel") == nil && ts.Rel("tmprel") == nil && t.Bool(1, 3) {
+			if err := sc.AddAttr(ts.Name, jsonapi.Attr{Name: "tmpattr", Type: jsonapi.AttrTypeInt, Nullable: t.Bool(1, 2)}); err != nil {
+				return nil, edits, err
+			}
+
+			if err := sc.AddRel(ts.Name, jsonapi.Rel{FromType: ts.Name, FromName: "tmprel", ToOne: t.Bool(1, 2), ToType: ts.Name}); err != nil {
+				return nil, edits, err
+			}
+
+			edits += 2
+
+			later = append(later, func() error {
+				sc.RemoveAttr(ts.Name, "tmpattr")
+				sc.RemoveRel(ts.Name, "tmprel")
+
+				return nil
+			})
+		}
+
+		if len(pending) > 0 && t.Bool(1, 2) {
+			unscaffold()
+		}
+	}
+
+	// the deferred edits, in a drawn order
+	for len(later) > 0 {
+		k := t.Draw(len(later))
+		if err := later[k](); err != nil {
+			return nil, edits, err
+		}
+
+		later = append(later[:k], later[k+1:]...)
+
+		if len(pending) > 0 && t.Bool(1, 2) {
+			unscaffold()
+		}
+	}
+
+	for len(pending) > 0 {
+		unscaffold()
+	}
+
+	return sc, edits, nil
+}
+
+// BuildSchemaAnyHow builds the schema plainly or, in a quarter of the runs,
+// through BuildSchemaHist. The bool result tells which.
+func (s *SchemaSpec) BuildSchemaAnyHow(t *core.Tape) (*jsonapi.Schema, bool, error) {
+	if !t.Bool(1, 4) {
+		sc, err := s.BuildSchema(nil)
+		return sc, false, err
+	}
+
+	sc, edits, err := s.BuildSchemaHist(t)
+
+	return sc, edits > 0, err
+}
